@@ -148,6 +148,13 @@ def run(ctx):
     # letter cases), must give what each gives in a process of its own in which nothing was parsed before
     import checks.c20 as c20
     corpus = list(dict.fromkeys(list(gens.VALID_FILTERS) + gens.KEYWORD_FILTERS))
+    # … and every built-in called with too few / too many arguments, unknown names under the built-in namespaces and custom namespaces (the outcomes that
+    # depend on the function table: a table or namespace set consumed / mutated by earlier parses shows here)
+    from odata_query import grammar as _gr
+    for nm in _gr.ODATA_FUNCTIONS:
+        corpus += [f"{nm}()", f"{nm}(a, b, c, d)", f"{nm}(a)", f"{nm}(a, b)"]
+    corpus += ["geo.area(x)", "geo.nosuch()", "nosuch(1)", "my.fn()", "my.fn(a, b, c)", "my.geo.length()", "geo.x.length(a, b)", "f.g(a=1, b=2)", "geo.distance(a=p, b=q)"]
+    corpus = list(dict.fromkeys(corpus))
     fresh = c20.fresh_process_outcomes(corpus)
     hist_diff = [(t, guarded_parse(t), fresh[t]) for t in corpus]
     hist_diff = [(t, a, b) for t, a, b in hist_diff if a != b]
@@ -174,6 +181,24 @@ def run(ctx):
             found.append({"property": "C10", "input": t, "in_a_fresh_process": b[:400], "after_other_inputs_in_one_process": a[:400],
                           "why": "the same string does not always give the same outcome: it depends on what was parsed earlier in the process",
                           "signature": "C10:history:" + t[:30], "replay": "parse the case re-spellings (upper / title / swapcase) of the corpus, then this string; compare with a fresh process"})
+        # inputs on which the model and the real parser differ: does the real parser itself give them another outcome in a process of their own?
+        # (inputs that do not terminate within the budget are left to the scan below: a fresh process would not terminate either)
+        dtexts = [c for c in dict.fromkeys(c for (n, c, r, m) in ctx.diffs if isinstance(c, str) and len(c) < 2000 and not str(r).startswith("timeout"))][:300]
+        inproc = {t: guarded_parse(t) for t in dtexts} if _TIMEOUTS[0] < 3 else {}
+        dtexts = [t for t in dtexts if t in inproc and not inproc[t].startswith("timeout")]
+        if dtexts:
+            try:
+                fr = c20.fresh_process_outcomes(dtexts)
+            except Exception:  # noqa  (a child that does not terminate: nothing to compare)
+                fr = {}
+            for t in dtexts:
+                a = inproc[t]
+                if t in fr and a != fr[t]:
+                    found.append({"property": "C10", "input": t, "in_a_fresh_process": fr[t][:400], "after_other_inputs_in_one_process": a[:400],
+                                  "why": "the same string does not always give the same outcome: it depends on what was parsed earlier in the process",
+                                  "signature": "C10:history:" + t[:30], "replay": "parse the string in a fresh process, and again in a process that has parsed other filters (e.g. one with a namespaced call)"})
+                    if len(found) > 30:
+                        break
         cand = [c for (n, c, r, m) in ctx.diffs] or (texts + longs)
         for t in cand[:20000]:
             r = guarded_parse(t, None, None, tree=len(t) < 2000)
